@@ -82,6 +82,9 @@ def norm_lens(t, memo=None):
         if n[0] == 'op' and n[1] in ('imin', 'imax') and len(n[2]) == 2:
             a, b = n[2]
             return phi(op('le', a, b), a, b) if n[1] == 'imin' else phi(op('ge', a, b), a, b)
+        if n[0] == 'op' and n[1] == 'saturating_sub' and len(n[2]) == 2:
+            a, b = n[2]
+            return phi(op('ge', a, b), op('isub', a, b), ('lit', 0, 'i'))
         return n
     return map_term(t, f, memo)
 
